@@ -164,8 +164,11 @@ func runC19(c *Ctx) {
 				}
 			}
 			ex0, _ := extractOfInstr(hc, 0).(*ssa.Extract)
-			if okAll && ex0 != nil && extractOfInstr(hc, 1) != nil {
-				wire, wireErr = ex0, extractOfInstr(hc, 1)
+			if ex0 != nil && extractOfInstr(hc, 1) != nil {
+				wire = ex0
+				if okAll {
+					wireErr = extractOfInstr(hc, 1)
+				} // else: the helper validates nothing; the bound is owed by Decode itself
 			}
 		}
 	}
